@@ -14,6 +14,7 @@ pub mod c06;
 pub mod c07;
 pub mod c08;
 pub mod c10;
+pub mod c11;
 pub mod c13;
 pub mod c14;
 pub mod c15;
@@ -61,7 +62,7 @@ pub const DEFAULT: Check = Check {
 };
 
 pub fn all() -> Vec<Check> {
-    vec![c01::check(), c02::check(), c05::check(), c06::check(), c13::check(), c14::check(), c15::check(), c04::check(), c07::check(), c08::check(), c10::check(), c17::check()]
+    vec![c01::check(), c02::check(), c05::check(), c06::check(), c13::check(), c14::check(), c15::check(), c04::check(), c07::check(), c08::check(), c10::check(), c11::check(), c17::check()]
 }
 
 pub fn find(id: &str) -> Option<Check> {
